@@ -75,11 +75,14 @@ def build():
     return w, node, req, tok, mid, calls
 
 
+MIDBASE = [0x5000]
+
+
 def incoming(cell, tok, i=0):
     """Bytes of the datagram described by a cell."""
     t, code, known, src, local, dur, nr = cell
     token = tok if known else b"\xee\x0f"
-    mid = 0x5000 + i
+    mid = (MIDBASE[0] + i) & 0xFFFF
     opts = []
     payload = b""
     if 1 <= code < 32:
@@ -202,7 +205,7 @@ def run_cells(cells, res, label):
         replies = observe(w, t0, (PEER, PEER2))
         single = len(cells) == 1
         got = classify(replies, mids, tokens, t0, with_time=single)
-        case = {"cells": [list(c) for c in cells]}
+        case = {"cells": [list(c) for c in cells], "midbase": MIDBASE[0]}
         res.evaluations += 1
         res.traces += 1
         # invariants that hold in every cell, don't-care or not
@@ -289,6 +292,58 @@ def run_behind_unacked(res, cell):
         res.transitions += 2
         res.outcomes.add(core.digest(("behind", got)))
         res.signatures.add(core.digest(("behind", cell)))
+    finally:
+        w.dispose()
+
+
+def run_token_sequence(res, a, b):
+    """A peer that re-uses one token for consecutive requests: after the first request has been dealt with completely, the second
+    one on the same token is a fresh cell of the table (nothing remembered from the first may colour the reaction)."""
+    w, node, req, tok, reqmid, calls = build()
+    try:
+        t0 = w.loop.time()
+        T = b"\x5b"
+        da, mida, _ = incoming(a, tok, 0)
+        ma = rc.decode(da, check_formats=False)
+        w.inject(PEER, NODE, rc.encode((ma[0], ma[1], ma[2], T, ma[4], ma[5])), local_ip=LOCALS["uni"])
+        while True:
+            while w.pool:
+                for dg in list(w.pool):
+                    w.deliver(dg)
+            tn = w.loop.next_timer()
+            if tn is None or tn > t0 + 1.5:
+                break
+            w.loop.fire_next_timer()
+        w.loop.advance_to(t0 + 1.5)
+        t1 = w.loop.time()
+        n_before = len(w.sent)
+        db, midb, _ = incoming(b, tok, 1)
+        mb = rc.decode(db, check_formats=False)
+        w.inject(PEER, NODE, rc.encode((mb[0], mb[1], mb[2], T, mb[4], mb[5])), local_ip=LOCALS["uni"])
+        while True:
+            while w.pool:
+                for dg in list(w.pool):
+                    w.deliver(dg)
+            tn = w.loop.next_timer()
+            if tn is None or tn > t1 + 1.5:
+                break
+            w.loop.fire_next_timer()
+        replies = [(dg, rc.decode(dg.data, check_formats=False)) for dg in w.sent[n_before:]
+                   if dg.src == NODE and not (1 <= dg.data[1] < 32)]
+        got = classify(replies, [midb], [T], t1, with_time=True)
+        want = norm_expected(expected(b, midb, T))
+        case = {"token_sequence": [list(a), list(b)]}
+        res.evaluations += 1
+        res.traces += 1
+        if got != want:
+            res.violate(Violation("reaction-after-token-reuse", want, got, "messagemanager.py:send_message", case, trace=w.trace[-20:],
+                                  key="tokseq/" + cells_key([b])))
+        for msg, e in w.loop_exceptions():
+            res.violate(Violation("loop-exception", "none", core.exc_desc(e) if e else msg, core.site_of(e) if e else "loop", case, key="loop"))
+        res.states.add(core.digest(("tokseq", a, b, got)))
+        res.transitions += 2
+        res.outcomes.add(core.digest(("tokseq", got)))
+        res.signatures.add(core.digest(("tokseq", a, b)))
     finally:
         w.dispose()
 
@@ -397,6 +452,25 @@ def job(arg):
         for c in sub:
             run_cells([first, second, c], res, "triple")
         res.sample({"triple": [list(first), list(second), list(sub[0])]})
+    elif kind == "edgemids":
+        for base in (0x0000, 0xFFFF):
+            MIDBASE[0] = base
+            try:
+                for c in items:
+                    run_cells([c], res, "single")
+                for a in items[:6]:
+                    for b in items[:6]:
+                        run_cells([a, b], res, "pair")
+            finally:
+                MIDBASE[0] = 0x5000
+        res.sample({"message_id_base": [0, 65535], "cell": list(items[0])})
+    elif kind == "tokseq":
+        reqs = [c for c in items if 1 <= c[1] < 32 and c[0] in (rc.CON, rc.NON)]
+        reqs += [(rc.CON, 1, False, "peer", "uni", "0", 26), (rc.NON, 1, False, "peer", "uni", "0", 26), (rc.CON, 1, False, "peer", "uni", "slow", 26)]
+        for a in reqs:
+            for b in reqs:
+                run_token_sequence(res, a, b)
+        res.sample({"token_sequence": [list(reqs[0]), list(reqs[-1])]})
     elif kind == "out":
         outgoing(res)
     elif kind == "behind":
@@ -458,6 +532,8 @@ def run(tier, seed, jobs):
     work += [("pairs", (a, sub)) for a in sub]
     work.append(("out", None))
     work += [("behind", sub[i::4]) for i in range(4)]
+    work += [("edgemids", sub[i::4]) for i in range(4)]
+    work.append(("tokseq", sub))
     if tier == "thorough":
         work += [("triples", (a, b, sub)) for a in sub for b in sub]
     res = core.prun(job, work, jobs)
@@ -471,6 +547,9 @@ def replay(case, scenario, seed):
     if "behind_unacked" in case:
         run_behind_unacked(res, tuple(case["behind_unacked"]))
         return [v for v, n in res.violations.values()]
+    if "token_sequence" in case:
+        run_token_sequence(res, tuple(case["token_sequence"][0]), tuple(case["token_sequence"][1]))
+        return [v for v, n in res.violations.values()]
     if "same_token" in case:
         run_same_token(res, *case["same_token"])
         return [v for v, n in res.violations.values()]
@@ -478,5 +557,6 @@ def replay(case, scenario, seed):
         outgoing(res)
     else:
         cells = [tuple(c) for c in case["cells"]]
+        MIDBASE[0] = case.get("midbase", 0x5000)
         run_cells(cells, res, "single" if len(cells) == 1 else "pair")
     return [v for v, n in res.violations.values()]
